@@ -37,6 +37,9 @@ func c11Scenario(kind string, nfrag int, errNodes []string, errIdx int, bound in
 	sc := &world.Scenario{Nodes: T3m(), Bound: bound, Horizon: 300, Family: "split-" + kind}
 	ka, kb, kc := keysA[0], keysB[0], keysC[0]
 	keys := []string{ka, kb, kc}[:nfrag]
+	if nfrag == 1 {
+		keys = []string{"{" + ka + "}x", "{" + ka + "}y"} // two keys, one slot, one fragment
+	}
 	var r Req
 	switch kind {
 	case "get":
@@ -127,6 +130,12 @@ func c11Scenarios(tier string) []*world.Scenario {
 		errs = nil
 		for i := range c11Errors {
 			errs = append(errs, i)
+		}
+	}
+	// multi-key commands whose keys all live in ONE slot travel as a single fragment: the error is the whole reply
+	for _, kind := range []string{"mget", "del", "mset"} {
+		for _, ei := range errs {
+			out = append(out, c11Scenario(kind, 1, []string{AddrA}, ei, -1))
 		}
 	}
 	for _, kind := range []string{"mget", "del", "mset"} {
@@ -448,6 +457,37 @@ func c13Scenarios(tier string) []*world.Scenario {
 			}
 		}
 	}
+	// the redirect line is not the first reply of its read and the final reply is followed by further replies in the
+	// same read (how many ready replies a read carries is an enumerated choice)
+	for _, rc := range c13Cases[:2] {
+		for _, kind := range []string{"get", "mget"} {
+			sc := c13Scenario(rc, kind, 1, b+1)
+			key := keysA[5]
+			var r Req
+			if kind == "get" {
+				r = GetReq(key)
+			} else {
+				r = MGetReq(keysB[2], key)
+			}
+			first := []Req{GetReq(keysA[2]), r, GetReq(keysB[1])}
+			second := []Req{GetReq(keysB[4]), GetReq(keysA[3])}
+			cs := ClientOf(append(append([]Req{}, first...), second...), true)
+			var c1, c2 []byte
+			for _, q := range first {
+				c1 = append(c1, q.Bytes...)
+			}
+			for _, q := range second {
+				c2 = append(c2, q.Bytes...)
+			}
+			cs.Chunks = []world.Chunk{{Data: c1}, {Data: c2}}
+			sc.Clients = []world.ClientSpec{cs}
+			sc.CoalesceChoice, sc.FreeKinds = true, []string{"coalesce"}
+			sc.ReadCap, sc.WriteCap = 256, 256
+			sc.Horizon = 120
+			sc.Name = fmt.Sprintf("C13/%s/%s-sandwiched/coalesce-choice/d%d", rc.name, kind, b+1)
+			out = append(out, sc)
+		}
+	}
 	// slot numbers at the edges of the redirect line's number field: slot 0, a one-digit slot, the last slot of the range
 	initSlotKeys()
 	for _, rc := range c13Cases[:3] {
@@ -462,11 +502,11 @@ func c13Scenarios(tier string) []*world.Scenario {
 
 func init() {
 	register(&Check{ID: "C11", Level: "fault_enumeration",
-		Rule:      "error menu (ERR, WRONGTYPE, LOADING, CLUSTERDOWN, TRYAGAIN, CROSSSLOT, READONLY, OOM, MASTERDOWN, BUSY) x request kinds (single-key GET; MGET/DEL/MSET over 2 and 3 fragments) x EVERY non-empty subset of fragments answering with the error x all routing orders x all arrival orders (unbounded interleavings; bound 3 for 3-fragment quick tier), followed by a GET that must still be served; non-trivial = >= 1 deviation; distinct = observable outcomes; plus: the error reply arrives in the same backend read as the reply of ANOTHER client whose connection goes away while that reply is delivered (QUIT pipelined behind its request, FIN, RST), how many replies one read carries being an enumerated choice: the error still reaches its own client and its follow-up is served",
+		Rule:      "error menu (ERR, WRONGTYPE, LOADING, CLUSTERDOWN, TRYAGAIN, CROSSSLOT, READONLY, OOM, MASTERDOWN, BUSY) x request kinds (single-key GET; MGET/DEL/MSET over 1 (two keys of one slot), 2 and 3 fragments) x EVERY non-empty subset of fragments answering with the error x all routing orders x all arrival orders (unbounded interleavings; bound 3 for 3-fragment quick tier), followed by a GET that must still be served; non-trivial = >= 1 deviation; distinct = observable outcomes; plus: the error reply arrives in the same backend read as the reply of ANOTHER client whose connection goes away while that reply is delivered (QUIT pipelined behind its request, FIN, RST), how many replies one read carries being an enumerated choice: the error still reaches its own client and its follow-up is served",
 		Scenarios: c11Scenarios, BudgetQuick: 90, BudgetThorough: 1200,
 		Assumptions: []string{"error texts are representative Redis error lines; the property quantifies over the error class, which the proxy treats uniformly (first byte '-')"}})
 	register(&Check{ID: "C13", Level: "model_checking",
-		Rule:      "cluster-model redirect situations {slot moved A->B; slot migrating A->B (ASK, target serves only after ASKING); MOVED chain A->B->C; two nodes redirecting to each other with MOVED and with ASK; MOVED followed by an ASK cycle; MOVED / ASK to self} x {single-key GET, fragment of MGET, fragment of DEL} x every position of a 3-request pipeline next to non-redirected requests x every interleaving within the bound; oracle: final node's reply once and in order, ASKING immediately before the re-sent command, bounded number of re-sends; non-trivial = >= 1 deviation; distinct = observable outcomes; plus the first three situations for keys of slot 0, a one-digit slot and the last slot of the node's range",
+		Rule:      "cluster-model redirect situations {slot moved A->B; slot migrating A->B (ASK, target serves only after ASKING); MOVED chain A->B->C; two nodes redirecting to each other with MOVED and with ASK; MOVED followed by an ASK cycle; MOVED / ASK to self} x {single-key GET, fragment of MGET, fragment of DEL} x every position of a 3-request pipeline next to non-redirected requests x every interleaving within the bound; oracle: final node's reply once and in order, ASKING immediately before the re-sent command, bounded number of re-sends; non-trivial = >= 1 deviation; distinct = observable outcomes; plus the first three situations for keys of slot 0, a one-digit slot and the last slot of the node's range; plus MOVED / ASK for a request sandwiched between requests to the old and the new node, a second chunk of requests arriving at any time, and backend reads that carry any number of ready replies (redirect line not first in its read, final reply followed by further replies)",
 		Scenarios: c13Scenarios, BudgetQuick: 90, BudgetThorough: 1200,
 		Assumptions: []string{"node model implements MOVED/ASK/ASKING as the Redis Cluster specification describes"}})
 }
